@@ -4,6 +4,7 @@ package pstree
 
 import (
 	"fmt"
+	"math"
 	"math/big"
 	"sort"
 
@@ -326,10 +327,28 @@ func withinBound(d, beta, P int) bool {
 	return lhs.Cmp(rhs) <= 0
 }
 
-// maxDepthAllowed returns the largest d satisfying withinBound (capped).
+// maxDepthAllowed returns the largest d satisfying withinBound.  It is used
+// for messages and for the slack histogram only (the oracle itself is the
+// exact withinBound test on the measured depth), so it starts from a floating
+// point estimate and adjusts it with a few exact tests, and falls back to the
+// estimate where the exact numbers would be huge (very loose factors).
 func maxDepthAllowed(beta, P int) int {
-	d := 1
-	for d < 4000 && withinBound(d+1, beta, P) {
+	if P <= 0 {
+		return 1
+	}
+	if beta >= 1000 {
+		return 1 << 30
+	}
+	b := 2000.0 / float64(1000+beta)
+	est := int(math.Log(float64(P))/math.Log(b)) + 1
+	if est > 3000 {
+		return est
+	}
+	d := est + 2
+	for d > 1 && !withinBound(d, beta, P) {
+		d--
+	}
+	for withinBound(d+1, beta, P) {
 		d++
 	}
 	return d
